@@ -107,6 +107,16 @@ type exec struct {
 	oldAge   int
 	started  bool
 	adminObs []string
+	sync     bool // synchronous tier: no scheduler, steps counted by the driver
+	syncStep int
+}
+
+// now is the logical time used to relate transactions to published states.
+func (x *exec) now() int {
+	if x.sync {
+		return x.syncStep
+	}
+	return vsched.Steps()
 }
 
 func (x *exec) failf(format string, a ...any) {
@@ -191,10 +201,10 @@ func (x *exec) Main() {
 func (x *exec) runTran(ci, si int, s Tran) {
 	tr := &TranRec{Client: ci, Seq: si, Script: s, Complete: "-", End: math.MaxInt}
 	x.trans = append(x.trans, tr)
-	tr.StepLo = vsched.Steps()
+	tr.StepLo = x.now()
 	if s.ReadOnly {
 		rt := x.db.NewReadTran()
-		tr.StepHi = vsched.Steps()
+		tr.StepHi = x.now()
 		for _, o := range s.Ops {
 			tr.Obs = append(tr.Obs, ExecReal(rt, nil, o))
 		}
@@ -202,7 +212,7 @@ func (x *exec) runTran(ci, si int, s Tran) {
 		return
 	}
 	ut := x.db.NewUpdateTran()
-	tr.StepHi = vsched.Steps()
+	tr.StepHi = x.now()
 	tr.Snapshot = ut.VerifSnapshot()
 	for _, o := range s.Ops {
 		obs := ExecReal(ut, ut, o)
@@ -224,7 +234,7 @@ func (x *exec) runTran(ci, si int, s Tran) {
 	}
 	if !tr.Aborted && !tr.ExplAbort {
 		tr.Complete = ut.Complete()
-		tr.DoneStep = vsched.Steps()
+		tr.DoneStep = x.now()
 	}
 	tr.Start, tr.End = ut.VerifStartEnd()
 	tr.HasUpdates = ut.VerifHasUpdates()
@@ -250,7 +260,7 @@ func (x *exec) observe(cur *db19.DbState) {
 		x.failf("reading a published state panicked: %v", e)
 		return
 	}
-	ps := pubState{ptr: cur, step: vsched.Steps(), content: content, canon: content.Canon()}
+	ps := pubState{ptr: cur, step: x.now(), content: content, canon: content.Canon()}
 	x.states = append(x.states, ps)
 	if x.or.IndexAgree {
 		x.checkIndexes(cur)
@@ -441,6 +451,11 @@ func (x *exec) Finish(out vsched.Outcome) (string, *sched.Failure) {
 		}
 		return obs.String(), &sched.Failure{Msg: fmt.Sprintf("execution ended with %s: %s", out.Status, out.Detail)}
 	}
+	return x.judge(&obs)
+}
+
+// judge evaluates the end-of-execution oracles (shared by both tiers).
+func (x *exec) judge(obs *strings.Builder) (string, *sched.Failure) {
 	if x.final == nil {
 		return obs.String(), &sched.Failure{Msg: "final persist did not return a state"}
 	}
@@ -452,7 +467,7 @@ func (x *exec) Finish(out vsched.Outcome) (string, *sched.Failure) {
 		return obs.String(), x.fail
 	}
 	finalContent := Content(x.db, x.final)
-	fmt.Fprintf(&obs, "final=%s", finalContent.Canon())
+	fmt.Fprintf(obs, "final=%s", finalContent.Canon())
 	cs := x.committedInOrder()
 
 	// ---- write-log replay: model state after each commit (C03 / C16 / C07 / final)
